@@ -162,7 +162,7 @@ CLAIMED = {
         "hand-written and tied by sampled correspondence (110 configurations quick); float32 rounding "
         "absorbed by tolerance 2^-17 scaled by the preconditioner chain's amplification factor; matrix "
         "roots are oracles checked by certificate (slack is an assumption as in C01). Quantized / pmap "
-        "/ sharded plumbing is covered by C11/C13/C03, the sharded one-refresh lag by C04.",
+        "/ sharded plumbing is covered by C11/C13/C03, the sharded one-refresh lag by C04. Open finding C02-P1 (pmap on >= 2 devices with no preconditioned parameter: XLA compiler crash) is printed as KNOWN-FINDING.",
         "DESIGN.md 7/C02"),
     "C05": (
         "Coq proof (norm identities from a pointwise sqrt spec, closed forms of every graft step by "
